@@ -50,7 +50,7 @@ impl<S: Spec> CloneMachine<S> {
             }
         }
         ops.extend([OpDef::ClearA, OpDef::ClearB, OpDef::Clone, OpDef::CloneBack]);
-        for k in 0..4 {
+        for k in 0..5 {
             ops.push(OpDef::CloneFrom(k));
         }
         CloneMachine { e, values, ops, a: Side { r: Default::default(), issued: vec![] }, b: None, clones: 0, max_clones, tags: vec![] }
@@ -69,6 +69,14 @@ impl<S: Spec> CloneMachine<S> {
                         let _ = S::canon_push(&mut r, v);
                     }
                 }
+            }
+            4 => {
+                // an empty region built by merge_regions (coded regions: it carries a code table / dictionary)
+                let mut src: S::R = Default::default();
+                for v in self.e.values.iter().take(2) {
+                    let _ = S::canon_push(&mut src, v);
+                }
+                r = S::R::merge_regions(std::iter::once(&src));
             }
             _ => {
                 // widest value pushed and cleared again: structure (columns, spilled containers) remains
@@ -151,7 +159,7 @@ impl<S: Spec> Machine for CloneMachine<S> {
             OpDef::CloneBack => "a = b.clone()".into(),
             OpDef::CloneFrom(k) => format!(
                 "b = <{}>; b.clone_from(&a)",
-                ["Default", "one item", "all values twice", "widest value twice, then cleared"][*k as usize]
+                ["Default", "one item", "all values twice", "widest value twice, then cleared", "merge_regions([region holding the first two values])"][*k as usize]
             ),
         }
     }
